@@ -89,6 +89,8 @@ impl TopicActor {
         tokio::spawn(async move {
             while let Some(request) = receiver.recv().await {
                 actor.receive(request).await;
+                #[cfg(deltio_verif)]
+                crate::verif::point("topic_actor.turn").await;
             }
         });
 
@@ -202,6 +204,8 @@ impl TopicActor {
         }
 
         // Wait for all the tasks to complete.
+        #[cfg(deltio_verif)]
+        crate::verif::point("topic_actor.publish.join").await;
         while let Some(task) = set.join_next().await {
             // Handle any errors at the Tokio level.
             let result = task.unwrap_or(Err(PostMessagesError::Closed));
